@@ -4,9 +4,13 @@ package main
 
 import (
 	"fmt"
+	"os"
+	"runtime"
 	"runtime/debug"
 	"sort"
+	"strconv"
 	"sync"
+	"sync/atomic"
 	"time"
 
 	"golang.org/x/tools/go/ssa"
@@ -385,6 +389,29 @@ func (in *Interp) panicMessage(v value) string {
 
 // ---- the explorer ----
 
+// memory watchdog: exploration stops (INCONCLUSIVE) instead of driving the machine out of memory
+var (
+	memExceeded atomic.Bool
+	memLimitMiB = 16384
+)
+
+func startMemWatchdog() {
+	if v, err := strconv.Atoi(os.Getenv("GOSYM_MEMLIMIT_MIB")); err == nil && v > 0 {
+		memLimitMiB = v
+	}
+	go func() {
+		var ms runtime.MemStats
+		for {
+			time.Sleep(500 * time.Millisecond)
+			runtime.ReadMemStats(&ms)
+			if ms.HeapAlloc>>20 > uint64(memLimitMiB) {
+				memExceeded.Store(true)
+				return
+			}
+		}
+	}()
+}
+
 type HarnessCfg struct {
 	Name          string
 	Entry         *ssa.Function
@@ -501,6 +528,15 @@ func (ex *Explorer) worker() {
 		}
 		if ex.cfg.MaxWall > 0 && time.Since(ex.t0) > ex.cfg.MaxWall {
 			ex.res.incomplete(fmt.Sprintf("bound: wall-clock budget of %s exhausted with unexplored paths", ex.cfg.MaxWall))
+			ex.mu.Lock()
+			ex.stop = true
+			ex.busy--
+			ex.mu.Unlock()
+			ex.cond.Broadcast()
+			return
+		}
+		if memExceeded.Load() {
+			ex.res.incomplete(fmt.Sprintf("bound: memory budget of %d MiB exhausted with unexplored paths", memLimitMiB))
 			ex.mu.Lock()
 			ex.stop = true
 			ex.busy--
